@@ -178,6 +178,28 @@ def run(tier, selftest):
     if rc != 0:
         vlib.tool_error(f"placement-record failed: {err[-500:]}")
     acc_ev, acc_tr, rej = validate_trace(tp, rep)
+    # histories on files that also hold the module children outside the placement model (optional singletons, IF_DATA,
+    # USER_RIGHTS): judged by the property alone (Trace_PlacementIdeal, incl. KeepsLoaded over every child)
+    tpx = os.path.join(vlib.scratch(), "placement_trace_extras.ndjson")
+    rc, lines, err = vlib.run_harness(binp, ["placement-record", "--seed", vlib.seed() + 77, "--traces", traces, "--steps", steps,
+                                             "--init", init + 4, "--extras", 1, "--out", tpx], timeout=900)
+    if rc != 0:
+        vlib.tool_error(f"placement-record (extras) failed: {err[-500:]}")
+    with open(tpx) as f:
+        xev = [json.loads(l) for l in f if l.strip()]
+    nx = sum(1 for e in xev if e["ev"] == "load")
+    while xev:
+        ok, irej = ideal_accepts(xev)
+        if ok:
+            break
+        d = irej[0]
+        start = max(i for i in range(d) if xev[i]["ev"] == "load")
+        end = next((i for i in range(d, len(xev)) if xev[i]["ev"] == "load"), len(xev))
+        bad = xev[d - 1]
+        rep.violation(f"placement:{'merge_in' if bad['ev'] == 'merge' else bad['ev']}:{'panic' if bad.get('panic') else 'order-all-children'}",
+                      f"history on a module with singletons / IF_DATA / USER_RIGHTS violates C15 (Trace_PlacementIdeal rejects event {d}: {json.dumps({k: bad[k] for k in bad if k != 'lists'})[:300]})",
+                      {"kind": "history", "events": xev[start:end]})
+        xev = xev[end:]
 
     binding = None
     if selftest or thorough:
@@ -198,6 +220,7 @@ def run(tier, selftest):
         "states_by_config": {"MC_Placement": res.distinct, "MC_Placement_Hi": res_hi.distinct, "MC_Placement_Compact": res_c.distinct},
         "expected_violations": {"MC_Placement_W5panic": res_p.violation, "MC_Placement_W5wrap": res_w.violation},
         "replayed_without_comments": s1["executions"] + s2["executions"],
+        "histories_with_singletons_ifdata_user_rights": nx,
         "skipped_states_with_comments": s1["skipped_with_comments"] + s2["skipped_with_comments"],
         "replay_mismatches": s1["mismatches"] + s2["mismatches"],
         "trace_events_validated": acc_ev,
@@ -210,7 +233,7 @@ def run(tier, selftest):
     for dnote in DRIFT[:5]:
         print(f"SPEC-DRIFT (not a violation of C15): {dnote}")
     vlib.write_evidence(PID, tier, "model_checking", cov, [
-        "MODULE children of the 20 list kinds and comments; optional singletons (A2ML, MOD_COMMON, MOD_PAR, VARIANT_CODING), IF_DATA and USER_RIGHTS are not part of the model",
+        "the implementation-shaped model covers MODULE children of the 20 list kinds and comments; for optional singletons (MOD_COMMON, MOD_PAR, VARIANT_CODING), IF_DATA and USER_RIGHTS only the relation 'what was loaded keeps its relative order' is judged (new singletons are placed by rules of their own: A2ML first)",
         "elements in the trailing run (no placed element of their kind) stay 'unplaced' in the ideal relation, as in DESIGN.md 4.6",
         "comment uids are crate-private and inferred from the neighbouring element uids at load time",
         "TLC integers are 32 bit: MaxUid is modelled as 2^31-1; with compaction at 2^30 no uid ever exceeds 2^31",
